@@ -1,5 +1,5 @@
-(* Ptg_proofs — the token decoders of xls / xlsb render every well-formed formula outside the
-   known classes as the A1 text of its AST (stack-machine induction). *)
+(* Ptg_proofs — the token decoders of xls / xlsb render every well-formed formula as the A1 text
+   of its AST (stack-machine induction).  No known class is left. *)
 From Coq Require Import String Ascii.
 From Calamine Require Import Prelude Col26 Col26_proofs FtabRef FtabMatch Ptg.
 From CalamineGen Require Tables.
@@ -186,15 +186,51 @@ Proof.
 Qed.
 
 (* ------------------------------------------------------------------ strings *)
-Lemma bmp_not_surr : forall c, bmp_scalar c = true -> is_hi_surr c = false /\ is_lo_surr c = false.
-Proof. intros c H. unfold bmp_scalar, is_hi_surr, is_lo_surr in *. lia. Qed.
+Lemma scalar_bounds : forall c, scalar c = true -> c < 1114112 /\ (c < 55296 \/ 57343 < c).
+Proof. intros c H. unfold scalar in H. lia. Qed.
 
-Lemma decode_units_bmp : forall s, forallb bmp_scalar s = true -> decode_units s = s.
+Lemma decode_units_utf16 : forall s, forallb scalar s = true -> decode_units (utf16_units s) = s.
 Proof.
   induction s as [|c s IH]; intros H; [reflexivity|].
   cbn [forallb] in H. apply andb_prop in H. destruct H as [Hc Hs].
-  destruct (bmp_not_surr _ Hc) as [H1 H2]. cbn [decode_units]. rewrite H1, H2, IH by exact Hs.
-  reflexivity.
+  destruct (scalar_bounds _ Hc) as [Hlt Hns]. specialize (IH Hs).
+  change (utf16_units (c :: s)) with
+    ((if c <? 65536 then [c] else [55296 + (c - 65536) / 1024; 56320 + (c - 65536) mod 1024]) ++ utf16_units s).
+  destruct (c <? 65536) eqn:E.
+  - apply N.ltb_lt in E. cbn [app decode_units].
+    assert (H1 : is_hi_surr c = false) by (unfold is_hi_surr; lia).
+    assert (H2 : is_lo_surr c = false) by (unfold is_lo_surr; lia).
+    rewrite H1, H2, IH. reflexivity.
+  - apply N.ltb_ge in E. cbn [app decode_units].
+    assert (H1 : is_hi_surr (55296 + (c - 65536) / 1024) = true) by (unfold is_hi_surr; lia).
+    assert (H2 : is_lo_surr (56320 + (c - 65536) mod 1024) = true) by (unfold is_lo_surr; lia).
+    rewrite H1, H2, IH. f_equal. lia.
+Qed.
+
+Lemma utf16_units_lt : forall s, forallb scalar s = true ->
+  forallb (fun c => c <? 65536) (utf16_units s) = true.
+Proof.
+  induction s as [|c s IH]; intros H; [reflexivity|].
+  cbn [forallb] in H. apply andb_prop in H. destruct H as [Hc Hs].
+  destruct (scalar_bounds _ Hc) as [Hlt Hns]. specialize (IH Hs).
+  change (utf16_units (c :: s)) with
+    ((if c <? 65536 then [c] else [55296 + (c - 65536) / 1024; 56320 + (c - 65536) mod 1024]) ++ utf16_units s).
+  rewrite forallb_app, IH. destruct (c <? 65536) eqn:E; cbn [forallb].
+  - rewrite E. reflexivity.
+  - apply N.ltb_ge in E.
+    assert (H1 : (55296 + (c - 65536) / 1024 <? 65536) = true) by lia.
+    assert (H2 : (56320 + (c - 65536) mod 1024 <? 65536) = true) by lia.
+    rewrite H1, H2. reflexivity.
+Qed.
+
+Lemma decode_units_narrow : forall s, forallb (fun c => c <? 256) s = true -> decode_units s = s.
+Proof.
+  induction s as [|c s IH]; intros H; [reflexivity|].
+  cbn [forallb] in H. apply andb_prop in H. destruct H as [Hc Hs]. apply N.ltb_lt in Hc.
+  cbn [decode_units].
+  assert (H1 : is_hi_surr c = false) by (unfold is_hi_surr; lia).
+  assert (H2 : is_lo_surr c = false) by (unfold is_lo_surr; lia).
+  rewrite H1, H2, IH by exact Hs. reflexivity.
 Qed.
 
 Lemma units_of_widen : forall s, units_of (widen s) = (s, false).
@@ -213,41 +249,22 @@ Proof.
   cbn [le app units_of]. rewrite IH. rewrite le2_eq by exact Hc. reflexivity.
 Qed.
 
-Lemma narrow_is_bmp : forall s, forallb (fun c => c <? 256) s = true -> forallb bmp_scalar s = true.
-Proof.
-  induction s as [|c s IH]; intros H; [reflexivity|].
-  cbn [forallb] in *. apply andb_prop in H. destruct H as [Hc Hs].
-  rewrite IH by exact Hs. unfold bmp_scalar. apply N.ltb_lt in Hc.
-  apply andb_true_intro. split; [|reflexivity]. lia.
-Qed.
-
-Lemma bmp_lt_65536 : forall s, forallb bmp_scalar s = true -> forallb (fun c => c <? 65536) s = true.
-Proof.
-  induction s as [|c s IH]; intros H; [reflexivity|].
-  cbn [forallb] in *. apply andb_prop in H. destruct H as [Hc Hs].
-  rewrite IH by exact Hs. unfold bmp_scalar in Hc. apply andb_prop in Hc. destruct Hc as [Hc _].
-  rewrite Hc. reflexivity.
-Qed.
-
 Lemma decode_widen : forall s, forallb (fun c => c <? 256) s = true -> decode_utf16le (widen s) = s.
 Proof.
   intros s H. unfold decode_utf16le. rewrite units_of_widen.
-  rewrite decode_units_bmp by (apply narrow_is_bmp; exact H). apply app_nil_r.
+  rewrite decode_units_narrow by exact H. apply app_nil_r.
 Qed.
 
-Lemma decode_le2 : forall s, forallb bmp_scalar s = true -> decode_utf16le (flat_map (le 2) s) = s.
+(* UTF-16LE bytes of the code units of a string of scalar values decode to that string *)
+Lemma decode_le2_units : forall s, forallb scalar s = true ->
+  decode_utf16le (flat_map (le 2) (utf16_units s)) = s.
 Proof.
-  intros s H. unfold decode_utf16le. rewrite units_of_le2 by (apply bmp_lt_65536; exact H).
-  rewrite decode_units_bmp by exact H. apply app_nil_r.
+  intros s H. unfold decode_utf16le. rewrite units_of_le2 by (apply utf16_units_lt; exact H).
+  rewrite decode_units_utf16 by exact H. apply app_nil_r.
 Qed.
 
-Lemma quote_str_plain : forall s, has_quote s = false -> quote_str s = [ch_quote] ++ s ++ [ch_quote].
-Proof.
-  intros s H. unfold quote_str. f_equal. f_equal.
-  induction s as [|c s IH]; [reflexivity|].
-  unfold has_quote in H. cbn [existsb] in H. apply orb_false_elim in H. destruct H as [Hc Hs].
-  cbn [flat_map]. rewrite Hc. cbn [app]. f_equal. apply IH. exact Hs.
-Qed.
+Lemma quote_str_replace : forall s, quote_str s = [ch_quote] ++ replace_quote s ++ [ch_quote].
+Proof. reflexivity. Qed.
 
 Lemma flat_le2_length : forall s, length (flat_map (le 2) s) = (2 * length s)%nat.
 Proof.
@@ -385,18 +402,30 @@ Proof.
   rewrite le8_eq by assumption. cbn [obind drop]. reflexivity.
 Qed.
 
-Lemma xls_step_str : forall s rest st buf,
-  wf_str_xls false s = true -> has_quote s = false ->
-  xls_step show_f64 env 0x17 (enc_str_xls false s ++ rest) (st, buf)
+Lemma xls_step_str : forall w s rest st buf,
+  wf_str_xls w s = true ->
+  xls_step show_f64 env 0x17 (enc_str_xls w s ++ rest) (st, buf)
   = Ok (rest, (length buf :: st, buf ++ quote_str s)).
 Proof.
-  intros s rest st buf Hwf Hq. unfold wf_str_xls in Hwf. apply andb_prop in Hwf.
-  destruct Hwf as [Hlen Hch]. apply N.ltb_lt in Hlen.
-  unfold xls_step, xls_ptgstr, enc_str_xls. cbn [app fst snd byte_at skipn obind].
-  rewrite Nat2N.id. cbn [drop Nat.add]. rewrite drop_app. cbn [obind].
-  change (N.testbit 0 0) with false. cbn iota.
-  rewrite take_app. cbn [obind]. rewrite decode_widen by exact Hch.
-  rewrite quote_str_plain by exact Hq. reflexivity.
+  intros w s rest st buf Hwf. unfold wf_str_xls in Hwf. rewrite quote_str_replace.
+  destruct w; apply andb_prop in Hwf; destruct Hwf as [Hlen Hch]; apply N.ltb_lt in Hlen;
+    unfold xls_step, xls_ptgstr, enc_str_xls; cbn [app fst snd byte_at skipn obind];
+    rewrite Nat2N.id.
+  - (* 16-bit code units *)
+    change (N.testbit 1 0) with true. cbn iota.
+    set (u := utf16_units s). set (fl := flat_map (le 2) u).
+    assert (Hfl : length fl = (2 * length u)%nat) by apply flat_le2_length.
+    rewrite <- Hfl. rewrite firstn_app_len.
+    replace (length fl / 2)%nat with (length u)
+      by (rewrite Hfl, Nat.mul_comm, Nat.div_mul by lia; reflexivity).
+    rewrite Nat.min_id, <- Hfl, firstn_all.
+    cbn [drop Nat.add]. rewrite drop_app. cbn [obind].
+    unfold fl, u. rewrite decode_le2_units by exact Hch. reflexivity.
+  - (* 8-bit characters *)
+    change (N.testbit 0 0) with false. cbn iota.
+    rewrite firstn_app_len, Nat.min_id, firstn_all.
+    cbn [drop Nat.add]. rewrite drop_app. cbn [obind].
+    rewrite decode_widen by exact Hch. reflexivity.
 Qed.
 
 Lemma xls_step_bool : forall (b : bool) rest st buf,
@@ -499,19 +528,7 @@ Fixpoint expr_ind' (e : expr) : P e :=
   end.
 End ExprInd.
 
-(* ------------------------------------------------------------------ facts about wf / known on argument lists *)
-Lemma known_args_none : forall ks args,
-  fold_right (fun a acc => first_some (known ks a) acc) None args = None ->
-  Forall (fun a => known ks a = None) args.
-Proof.
-  induction args as [|a args IH]; intros H; [constructor|].
-  cbn [fold_right] in H. destruct (known ks a) eqn:E; [discriminate|].
-  constructor; [exact E|]. apply IH. exact H.
-Qed.
-
-Lemma first_some_none : forall a b, first_some a b = None -> a = None /\ b = None.
-Proof. intros [x|] b H; [discriminate|]. split; [reflexivity|exact H]. Qed.
-
+(* ------------------------------------------------------------------ facts about wf on argument lists *)
 Lemma forallb_Forall : forall (A : Type) (f : A -> bool) l, forallb f l = true -> Forall (fun x => f x = true) l.
 Proof.
   induction l as [|x l IH]; intros H; [constructor|].
@@ -569,11 +586,11 @@ Proof.
   - rewrite Hnm. reflexivity.
 Qed.
 
-Theorem rpn_step_xls : forall e, wf_xls env e = true -> known_xls e = None -> good_xls e.
+Theorem rpn_step_xls : forall e, wf_xls env e = true -> good_xls e.
 Proof.
-  unfold wf_xls, known_xls.
-  induction e using expr_ind'; intros Hwf Hkn; unfold good_xls; intros f rest st buf;
-    cbn [wf] in Hwf; cbn [known] in Hkn.
+  unfold wf_xls.
+  induction e using expr_ind'; intros Hwf; unfold good_xls; intros f rest st buf;
+    cbn [wf] in Hwf.
   - (* ERef *)
     unfold encode_xls. cbn [ntok Nat.add encode app]. rewrite <- app_assoc.
     rewrite xls_run_S, xls_step_ref by exact Hwf. reflexivity.
@@ -603,13 +620,8 @@ Proof.
     apply N.ltb_lt in Hwf. unfold encode_xls. cbn [ntok Nat.add encode app].
     rewrite xls_run_S, xls_step_num by assumption. reflexivity.
   - (* EStr *)
-    unfold known_str_xls in Hkn. destruct w.
-    + (* wide: only the empty string is outside the known class *)
-      destruct s as [|c s]; [|cbn in Hkn; discriminate].
-      unfold encode_xls. cbn [ntok Nat.add encode app]. rewrite xls_run_S. reflexivity.
-    + cbn [andb] in Hkn. destruct (has_quote s) eqn:Hq; [discriminate|].
-      unfold encode_xls. cbn [ntok Nat.add encode app].
-      rewrite xls_run_S, xls_step_str by assumption. reflexivity.
+    unfold encode_xls. cbn [ntok Nat.add encode app].
+    rewrite xls_run_S, xls_step_str by assumption. reflexivity.
   - (* EBool *)
     unfold encode_xls. cbn [ntok Nat.add encode app]. rewrite xls_run_S, xls_step_bool.
     destruct b; reflexivity.
@@ -621,7 +633,7 @@ Proof.
     unfold encode_xls. cbn [ntok Nat.add encode app]. rewrite xls_run_S.
     unfold render_xls. cbn [render]. rewrite app_nil_r. reflexivity.
   - (* EUn *)
-    specialize (IHe Hwf Hkn). unfold encode_xls. cbn [ntok encode]. fold encode_xls.
+    specialize (IHe Hwf). unfold encode_xls. cbn [ntok encode]. fold encode_xls.
     rewrite <- app_assoc. replace (S (ntok e) + f)%nat with (ntok e + S f)%nat by lia.
     rewrite IHe. cbn [app]. rewrite xls_run_S.
     destruct op; cbn [unop_ptg]; unfold xls_step; cbn [fst snd].
@@ -630,15 +642,14 @@ Proof.
     + cbn [obind fst snd]. unfold render_xls. cbn [render]. rewrite <- app_assoc. reflexivity.
   - (* EBin *)
     apply andb_prop in Hwf. destruct Hwf as [Hwf Hb]. apply andb_prop in Hwf. destruct Hwf as [Hop Ha].
-    apply first_some_none in Hkn. destruct Hkn as [Hka Hkb].
-    specialize (IHe1 Ha Hka). specialize (IHe2 Hb Hkb).
+    specialize (IHe1 Ha). specialize (IHe2 Hb).
     unfold encode_xls. cbn [ntok encode]. fold encode_xls.
     rewrite <- !app_assoc. replace (S (ntok e1 + ntok e2) + f)%nat with (ntok e1 + (ntok e2 + S f))%nat by lia.
     rewrite IHe1, IHe2. cbn [app]. rewrite xls_run_S, xls_step_binop by exact Hop.
     unfold arm_binop. cbn [fst snd]. rewrite split_off_app. cbn [obind fst snd].
     rewrite (@binop_text_spec op Hop). unfold render_xls. cbn [render]. rewrite <- !app_assoc. reflexivity.
   - (* EParen *)
-    specialize (IHe Hwf Hkn). unfold encode_xls. cbn [ntok encode]. fold encode_xls.
+    specialize (IHe Hwf). unfold encode_xls. cbn [ntok encode]. fold encode_xls.
     rewrite <- app_assoc. replace (S (ntok e) + f)%nat with (ntok e + S f)%nat by lia.
     rewrite IHe. cbn [app]. rewrite xls_run_S. unfold xls_step, arm_paren. cbn [fst snd].
     rewrite insert_at_app. cbn [obind fst snd]. unfold render_xls. cbn [render].
@@ -648,8 +659,7 @@ Proof.
     apply andb_prop in Hwf. destruct Hwf as [Hwf Hargs]. apply andb_prop in Hwf. destruct Hwf as [Hcnt Hi].
     apply N.eqb_eq in Hcnt. apply N.ltb_lt in Hi. subst n.
     assert (HG : Forall good_xls args).
-    { apply forallb_Forall in Hargs. apply known_args_none in Hkn.
-      rewrite Forall_forall in *. intros a Hin. apply H; auto. }
+    { apply forallb_Forall in Hargs. rewrite Forall_forall in *. intros a Hin. apply H; auto. }
     unfold encode_xls. cbn [ntok encode]. fold encode_xls.
     rewrite <- !app_assoc.
     replace (S (fold_right (fun a acc => ntok a + acc) 0 args) + f)%nat
@@ -666,8 +676,7 @@ Proof.
     apply andb_prop in Hwf. destruct Hwf as [Hwf Hargs]. apply andb_prop in Hwf. destruct Hwf as [Hi Hcnt].
     apply N.ltb_lt in Hcnt, Hi.
     assert (HG : Forall good_xls args).
-    { apply forallb_Forall in Hargs. apply known_args_none in Hkn.
-      rewrite Forall_forall in *. intros a Hin. apply H; auto. }
+    { apply forallb_Forall in Hargs. rewrite Forall_forall in *. intros a Hin. apply H; auto. }
     unfold encode_xls. cbn [ntok encode]. fold encode_xls.
     rewrite <- !app_assoc.
     replace (S (fold_right (fun a acc => ntok a + acc) 0 args) + f)%nat
@@ -680,7 +689,7 @@ Proof.
     + change FTAB_LEN_REF with 485 in Hi. lia.
     + lia.
   - (* ESum *)
-    specialize (IHe Hwf Hkn). unfold encode_xls. cbn [ntok encode]. fold encode_xls.
+    specialize (IHe Hwf). unfold encode_xls. cbn [ntok encode]. fold encode_xls.
     rewrite <- app_assoc. replace (S (ntok e) + f)%nat with (ntok e + S f)%nat by lia.
     rewrite IHe. cbn [app]. rewrite xls_run_S. unfold xls_step, xls_attr.
     cbn [byte_at skipn obind drop]. unfold arm_attrsum. cbn [fst snd].
@@ -688,7 +697,7 @@ Proof.
     rewrite <- ?app_assoc. reflexivity.
   - (* EAttrSkip *)
     apply andb_prop in Hwf. destruct Hwf as [Hwf Ha]. apply andb_prop in Hwf. destruct Hwf as [He Hw].
-    specialize (IHe Ha Hkn). unfold encode_xls. cbn [ntok encode]. fold encode_xls.
+    specialize (IHe Ha). unfold encode_xls. cbn [ntok encode]. fold encode_xls.
     cbn [app]. rewrite <- app_assoc. cbn [Nat.add]. rewrite xls_run_S.
     rewrite xls_step_attrskip by exact He. cbn [obind fst snd]. rewrite IHe.
     unfold render_xls. cbn [render]. reflexivity.
@@ -697,14 +706,14 @@ Qed.
 End XlsMain.
 
 Theorem rpn_correct_xls : forall show_f64 env e,
-  wf_xls env e = true -> known_xls e = None -> N.of_nat (length (encode_xls e)) < 65536 ->
+  wf_xls env e = true -> N.of_nat (length (encode_xls e)) < 65536 ->
   xls_parse_formula show_f64 env (frame_xls (encode_xls e)) = Ok (render_xls show_f64 env e).
 Proof.
-  intros show_f64 env e Hwf Hkn Hlen. unfold xls_parse_formula, frame_xls.
+  intros show_f64 env e Hwf Hlen. unfold xls_parse_formula, frame_xls.
   cbn [le app u16_at skipn obind drop]. rewrite le2_eq by exact Hlen. cbn [obind].
   rewrite Nat2N.id, take_all. cbn [obind].
   pose proof (ntok_le_length 2 enc_str_xls e) as Hn. fold encode_xls in Hn.
-  pose proof (@rpn_step_xls show_f64 env e Hwf Hkn) as HG. unfold good_xls in HG.
+  pose proof (@rpn_step_xls show_f64 env e Hwf) as HG. unfold good_xls in HG.
   specialize (HG (S (length (encode_xls e)) - ntok e)%nat [] [] []).
   rewrite app_nil_r in HG.
   replace (ntok e + (S (length (encode_xls e)) - ntok e))%nat with (S (length (encode_xls e))) in HG by lia.
@@ -827,16 +836,16 @@ Proof.
 Qed.
 
 Lemma xlsb_step_str : forall w s rest st buf,
-  wf_str_xlsb w s = true -> has_quote s = false ->
+  wf_str_xlsb w s = true ->
   step 0x17 (enc_str_xlsb w s ++ rest) (st, buf)
   = Ok (rest, (length buf :: st, buf ++ quote_str s)).
 Proof.
-  intros w s rest st buf Hwf Hq. unfold wf_str_xlsb in Hwf. apply andb_prop in Hwf.
-  destruct Hwf as [Hlen Hch]. apply N.ltb_lt in Hlen.
+  intros w s rest st buf Hwf. unfold wf_str_xlsb in Hwf. apply andb_prop in Hwf.
+  destruct Hwf as [Hlen Hch]. apply N.ltb_lt in Hlen. rewrite quote_str_replace.
   unfold xlsb_step, xlsb_ptgstr, enc_str_xlsb. rewrite <- app_assoc.
   cbn [le app fst snd u16_at skipn obind drop]. rewrite le2_eq by exact Hlen. cbn [obind].
   rewrite Nat2N.id. rewrite <- flat_le2_length. rewrite take_app, drop_app. cbn [obind].
-  rewrite decode_le2 by exact Hch. rewrite quote_str_plain by exact Hq. reflexivity.
+  rewrite decode_le2_units by exact Hch. reflexivity.
 Qed.
 
 Lemma xlsb_step_bool : forall (b : bool) rest st buf,
@@ -913,11 +922,11 @@ Proof.
     rewrite app_length, <- !app_assoc. reflexivity.
 Qed.
 
-Theorem rpn_step_xlsb : forall e, wf_xlsb env e = true -> known_xlsb e = None -> good_xlsb e.
+Theorem rpn_step_xlsb : forall e, wf_xlsb env e = true -> good_xlsb e.
 Proof.
-  unfold wf_xlsb, known_xlsb.
-  induction e using expr_ind'; intros Hwf Hkn; unfold good_xlsb; intros f rest st buf;
-    cbn [wf] in Hwf; cbn [known] in Hkn.
+  unfold wf_xlsb.
+  induction e using expr_ind'; intros Hwf; unfold good_xlsb; intros f rest st buf;
+    cbn [wf] in Hwf.
   - (* ERef *)
     unfold encode_xlsb. cbn [ntok Nat.add encode app]. rewrite <- app_assoc.
     rewrite xlsb_run_S, xlsb_step_ref by exact Hwf. reflexivity.
@@ -947,7 +956,6 @@ Proof.
     apply N.ltb_lt in Hwf. unfold encode_xlsb. cbn [ntok Nat.add encode app].
     rewrite xlsb_run_S, xlsb_step_num by assumption. reflexivity.
   - (* EStr *)
-    unfold known_str_xlsb in Hkn. destruct (has_quote s) eqn:Hq; [discriminate|].
     unfold encode_xlsb. cbn [ntok Nat.add encode app].
     rewrite xlsb_run_S, xlsb_step_str by assumption. reflexivity.
   - (* EBool *)
@@ -961,7 +969,7 @@ Proof.
     unfold encode_xlsb. cbn [ntok Nat.add encode app]. rewrite xlsb_run_S.
     unfold render_xlsb. cbn [render]. rewrite app_nil_r. reflexivity.
   - (* EUn *)
-    specialize (IHe Hwf Hkn). unfold encode_xlsb. cbn [ntok encode]. fold encode_xlsb.
+    specialize (IHe Hwf). unfold encode_xlsb. cbn [ntok encode]. fold encode_xlsb.
     rewrite <- app_assoc. replace (S (ntok e) + f)%nat with (ntok e + S f)%nat by lia.
     rewrite IHe. cbn [app]. rewrite xlsb_run_S.
     destruct op; cbn [unop_ptg]; unfold xlsb_step; cbn [fst snd].
@@ -970,15 +978,14 @@ Proof.
     + cbn [obind fst snd]. unfold render_xlsb. cbn [render]. rewrite <- app_assoc. reflexivity.
   - (* EBin *)
     apply andb_prop in Hwf. destruct Hwf as [Hwf Hb]. apply andb_prop in Hwf. destruct Hwf as [Hop Ha].
-    apply first_some_none in Hkn. destruct Hkn as [Hka Hkb].
-    specialize (IHe1 Ha Hka). specialize (IHe2 Hb Hkb).
+    specialize (IHe1 Ha). specialize (IHe2 Hb).
     unfold encode_xlsb. cbn [ntok encode]. fold encode_xlsb.
     rewrite <- !app_assoc. replace (S (ntok e1 + ntok e2) + f)%nat with (ntok e1 + (ntok e2 + S f))%nat by lia.
     rewrite IHe1, IHe2. cbn [app]. rewrite xlsb_run_S, xlsb_step_binop by exact Hop.
     unfold arm_binop. cbn [fst snd]. rewrite split_off_app. cbn [obind fst snd].
     rewrite (@binop_text_spec op Hop). unfold render_xlsb. cbn [render]. rewrite <- !app_assoc. reflexivity.
   - (* EParen *)
-    specialize (IHe Hwf Hkn). unfold encode_xlsb. cbn [ntok encode]. fold encode_xlsb.
+    specialize (IHe Hwf). unfold encode_xlsb. cbn [ntok encode]. fold encode_xlsb.
     rewrite <- app_assoc. replace (S (ntok e) + f)%nat with (ntok e + S f)%nat by lia.
     rewrite IHe. cbn [app]. rewrite xlsb_run_S. unfold xlsb_step, arm_paren. cbn [fst snd].
     rewrite insert_at_app. cbn [obind fst snd]. unfold render_xlsb. cbn [render].
@@ -988,8 +995,7 @@ Proof.
     apply andb_prop in Hwf. destruct Hwf as [Hwf Hargs]. apply andb_prop in Hwf. destruct Hwf as [Hcnt Hi].
     apply N.eqb_eq in Hcnt. apply N.ltb_lt in Hi. subst n.
     assert (HG : Forall good_xlsb args).
-    { apply forallb_Forall in Hargs. apply known_args_none in Hkn.
-      rewrite Forall_forall in *. intros a Hin. apply H; auto. }
+    { apply forallb_Forall in Hargs. rewrite Forall_forall in *. intros a Hin. apply H; auto. }
     unfold encode_xlsb. cbn [ntok encode]. fold encode_xlsb.
     rewrite <- !app_assoc.
     replace (S (fold_right (fun a acc => ntok a + acc) 0 args) + f)%nat
@@ -1006,8 +1012,7 @@ Proof.
     apply andb_prop in Hwf. destruct Hwf as [Hwf Hargs]. apply andb_prop in Hwf. destruct Hwf as [Hi Hcnt].
     apply N.ltb_lt in Hcnt, Hi.
     assert (HG : Forall good_xlsb args).
-    { apply forallb_Forall in Hargs. apply known_args_none in Hkn.
-      rewrite Forall_forall in *. intros a Hin. apply H; auto. }
+    { apply forallb_Forall in Hargs. rewrite Forall_forall in *. intros a Hin. apply H; auto. }
     unfold encode_xlsb. cbn [ntok encode]. fold encode_xlsb.
     rewrite <- !app_assoc.
     replace (S (fold_right (fun a acc => ntok a + acc) 0 args) + f)%nat
@@ -1020,7 +1025,7 @@ Proof.
     + change FTAB_LEN_REF with 485 in Hi. lia.
     + lia.
   - (* ESum *)
-    specialize (IHe Hwf Hkn). unfold encode_xlsb. cbn [ntok encode]. fold encode_xlsb.
+    specialize (IHe Hwf). unfold encode_xlsb. cbn [ntok encode]. fold encode_xlsb.
     rewrite <- app_assoc. replace (S (ntok e) + f)%nat with (ntok e + S f)%nat by lia.
     rewrite IHe. cbn [app]. rewrite xlsb_run_S. unfold xlsb_step, xlsb_attr.
     cbn [byte_at skipn obind drop]. unfold arm_attrsum. cbn [fst snd].
@@ -1028,7 +1033,7 @@ Proof.
     rewrite <- ?app_assoc. reflexivity.
   - (* EAttrSkip *)
     apply andb_prop in Hwf. destruct Hwf as [Hwf Ha]. apply andb_prop in Hwf. destruct Hwf as [He Hw].
-    specialize (IHe Ha Hkn). unfold encode_xlsb. cbn [ntok encode]. fold encode_xlsb.
+    specialize (IHe Ha). unfold encode_xlsb. cbn [ntok encode]. fold encode_xlsb.
     cbn [app]. rewrite <- app_assoc. cbn [Nat.add]. rewrite xlsb_run_S.
     rewrite xlsb_step_attrskip by exact He. cbn [obind fst snd]. rewrite IHe.
     unfold render_xlsb. cbn [render]. reflexivity.
@@ -1037,14 +1042,14 @@ Qed.
 End XlsbMain.
 
 Theorem rpn_correct_xlsb : forall show_f64 env e,
-  wf_xlsb env e = true -> known_xlsb e = None ->
+  wf_xlsb env e = true ->
   xlsb_parse_formula show_f64 env (encode_xlsb e) = Ok (render_xlsb show_f64 env e).
 Proof.
-  intros show_f64 env e Hwf Hkn. unfold xlsb_parse_formula.
+  intros show_f64 env e Hwf. unfold xlsb_parse_formula.
   pose proof (ntok_le_length 4 enc_str_xlsb e) as Hn. fold encode_xlsb in Hn.
   assert (Hpos : (1 <= ntok e)%nat) by (destruct e; cbn [ntok]; lia).
   destruct (encode_xlsb e) as [|b0 bs] eqn:Eenc; [cbn [length] in Hn; lia|]. rewrite <- Eenc in *.
-  pose proof (@rpn_step_xlsb show_f64 env e Hwf Hkn) as HG. unfold good_xlsb in HG.
+  pose proof (@rpn_step_xlsb show_f64 env e Hwf) as HG. unfold good_xlsb in HG.
   specialize (HG (S (length (encode_xlsb e)) - ntok e)%nat [] [] []).
   rewrite app_nil_r in HG.
   replace (ntok e + (S (length (encode_xlsb e)) - ntok e))%nat with (S (length (encode_xlsb e))) in HG by lia.
@@ -1053,38 +1058,21 @@ Proof.
   cbn [xlsb_run obind fst snd app xlsb_finish]. reflexivity.
 Qed.
 
-(* ================================================================== known classes: refutations *)
-(* F21 — xls PtgStr stored as 16-bit characters is read with half its length: "ab" comes back as "a"
-   and the remaining byte 0x00 is then met as an unknown token. *)
-Lemma rpn_refuted_str_wide :
-  exists env e, wf_xls env e = true /\ N.of_nat (length (encode_xls e)) < 65536 /\
-    known_xls e = Some K_STR_WIDE /\
-    forall show_f64, xls_parse_formula show_f64 env (frame_xls (encode_xls e)) <> Ok (render_xls show_f64 env e).
-Proof.
-  exists {| xe_sheets := []; xe_names := []; xe_xtis := [] |}, (EStr true [97; 98]).
-  repeat split; try reflexivity. intros show_f64. vm_compute. discriminate.
-Qed.
-
-(* a double quote inside a string literal is copied as is, formula text needs it doubled *)
-Lemma rpn_refuted_str_quote_xls :
-  exists env e, wf_xls env e = true /\ N.of_nat (length (encode_xls e)) < 65536 /\
-    known_xls e = Some K_STR_QUOTE /\
-    forall show_f64, xls_parse_formula show_f64 env (frame_xls (encode_xls e)) <> Ok (render_xls show_f64 env e).
-Proof.
-  exists {| xe_sheets := []; xe_names := []; xe_xtis := [] |}, (EStr false [97; 34; 98]).
-  repeat split; try reflexivity. intros show_f64. vm_compute. discriminate.
-Qed.
-
-Lemma rpn_refuted_str_quote_xlsb :
-  exists env e, wf_xlsb env e = true /\ known_xlsb e = Some K_STR_QUOTE /\
-    forall show_f64, xlsb_parse_formula show_f64 env (encode_xlsb e) <> Ok (render_xlsb show_f64 env e).
-Proof.
-  exists {| be_sheets := []; be_names := [] |}, (EStr false [97; 34; 98]).
-  repeat split; try reflexivity. intros show_f64. vm_compute. discriminate.
-Qed.
+(* ================================================================== former known classes *)
+(* K_STR_WIDE (F21, fixed by a3d91ee) and K_STR_QUOTE (fixed by 6ef7f34): their witnesses are now
+   instances of the theorems; kept as computed regression examples. *)
+Example former_known_witnesses :
+  let env := {| xe_sheets := []; xe_names := []; xe_xtis := [] |} in
+  let benv := {| be_sheets := []; be_names := [] |} in
+  xls_parse_formula (fun _ => []) env (frame_xls (encode_xls (EStr true [97; 98]))) = Ok (lit """ab""") /\
+  xls_parse_formula (fun _ => []) env (frame_xls (encode_xls (EStr false [97; 34; 98]))) = Ok (lit """a""""b""") /\
+  xlsb_parse_formula (fun _ => []) benv (encode_xlsb (EStr false [97; 34; 98])) = Ok (lit """a""""b""") /\
+  xls_parse_formula (fun _ => []) env (frame_xls (encode_xls (EStr true [20013; 128512]))) = Ok [34; 20013; 128512; 34] /\
+  xlsb_parse_formula (fun _ => []) benv (encode_xlsb (EStr false [65279; 128512])) = Ok [34; 65279; 128512; 34].
+Proof. vm_compute. repeat split. Qed.
 
 (* ================================================================== non-vacuity *)
-(* SUM(A1,$AB$2:XFD65536,,Sheet2!B$3)+-("hi")*rate%  with every kind of operand *)
+(* a formula with every kind of operand, a quoted quote and a wide non-BMP string *)
 Definition ex_env_xls : xls_env :=
   {| xe_sheets := [lit "Sheet1"; lit "Sheet2"]; xe_names := [lit "rate"];
      xe_xtis := [(0, 1, 1); (0, 65535, 65535)] |}.
@@ -1096,13 +1084,14 @@ Definition ex_expr : expr :=
   let d := {| cr_row := 2; cr_col := 1; cr_row_rel := false; cr_col_rel := true |} in
   EBin 3
     (EFuncVar CVal 4 [ERef CRef a; EArea CRef b c; EMissArg; ERef3d CRef 0 d])
-    (EBin 5 (EUn UMinus (EParen (EStr false [104; 105])))
+    (EBin 5 (EUn UMinus (EParen (EBin 8 (EStr false [104; 34; 105]) (EStr true [26085; 128512]))))
             (EUn UPercent (EFunc CVal 1 [EBool true; EName CVal 1; EAttrSkip 1 0 (ESum (EInt 7))]))).
 
 Example rpn_nonvacuous :
-  wf_xls ex_env_xls ex_expr = true /\ known_xls ex_expr = None /\
+  wf_xls ex_env_xls ex_expr = true /\
   N.of_nat (length (encode_xls ex_expr)) < 65536 /\
-  wf_xlsb ex_env_xlsb ex_expr = true /\ known_xlsb ex_expr = None /\
+  wf_xlsb ex_env_xlsb ex_expr = true /\
   render_xls (fun _ => []) ex_env_xls ex_expr =
-    lit "SUM(A1,$AB$2:XFD65536,,Sheet2!B$3)+-(""hi"")*IF(TRUE,rate,SUM(7))%".
+    lit "SUM(A1,$AB$2:XFD65536,,Sheet2!B$3)+-(""h""""i""&""" ++ [26085; 128512] ++
+    lit """)*IF(TRUE,rate,SUM(7))%".
 Proof. vm_compute. repeat split. Qed.
